@@ -36,6 +36,11 @@ type Clause struct {
 	Line    int
 }
 
+type AssertBefore struct {
+	Anchor string
+	Clause *Clause
+}
+
 type LoopSpec struct {
 	Invariants []*Clause
 	Decreases  *Clause
@@ -46,32 +51,33 @@ type LoopSpec struct {
 type Param struct{ Name, Type string }
 
 type FuncSpec struct {
-	Kind       SpecKind
-	Key        string // pkgpath.[Recv.]Name
-	PkgPath    string
-	Name       string
-	RecvName   string // receiver type name, "" for functions
-	Header     string
-	Recv       *Param
-	TParams    string // textual type parameter list for generated wrappers, "" if none
-	Params     []Param
-	Results    []Param
-	Requires   []*Clause
-	Ensures    []*Clause
-	Modifies   []*Clause
-	ModAll     bool // "modifies *": anything reachable may change
-	Loops      map[int]*LoopSpec
-	Asserts    map[string][]*Clause // label -> assertions
-	AtCalls    map[string][]*Clause // callee name -> assertions on the arguments at each call
-	Body       string               // spec func body (expression)
-	Arith      string               // "int" (default) or "bv"
-	NoOvf      bool                 // overflow obligations off (assumption recorded)
-	AllowPanic bool
-	Strings    bool // theory strings
-	Untrusted  bool
-	Pragmas    map[string]string
-	Line       int
-	File       string
+	Kind          SpecKind
+	Key           string // pkgpath.[Recv.]Name
+	PkgPath       string
+	Name          string
+	RecvName      string // receiver type name, "" for functions
+	Header        string
+	Recv          *Param
+	TParams       string // textual type parameter list for generated wrappers, "" if none
+	Params        []Param
+	Results       []Param
+	Requires      []*Clause
+	Ensures       []*Clause
+	Modifies      []*Clause
+	ModAll        bool // "modifies *": anything reachable may change
+	Loops         map[int]*LoopSpec
+	Asserts       map[string][]*Clause // label -> assertions
+	AtCalls       map[string][]*Clause // callee name -> assertions on the arguments at each call
+	AssertsBefore []*AssertBefore      // assertions anchored at the first statement whose source contains Anchor
+	Body          string               // spec func body (expression)
+	Arith         string               // "int" (default) or "bv"
+	NoOvf         bool                 // overflow obligations off (assumption recorded)
+	AllowPanic    bool
+	Strings       bool // theory strings
+	Untrusted     bool
+	Pragmas       map[string]string
+	Line          int
+	File          string
 }
 
 func (fs *FuncSpec) allParams() []Param {
@@ -95,6 +101,7 @@ type PkgContracts struct {
 	Locks      *LockSpec                                    // lockset discipline declarations (C09)
 	IgnorePkgs []string                                     // calls from this package into these packages are ignored
 	atcallVars func(fs *FuncSpec, callee string) []localVar // locals + callee parameters visible to an atcall clause
+	assertVars func(fs *FuncSpec, ab *AssertBefore) []localVar
 	Raw        string
 }
 
@@ -102,7 +109,7 @@ var clauseKeywords = map[string]bool{
 	"func": true, "trusted": true, "pure": true, "inline": true, "ignore": true, "spec": true, "lemma": true, "import": true,
 	"requires": true, "ensures": true, "modifies": true, "loop": true, "arith": true, "overflow": true, "allow_panic": true,
 	"theory": true, "untrusted_input": true, "pragma": true, "assert": true, "note": true, "tparams": true, "ghost": true, "decl": true, "atcall": true, "ignorepkg": true, "trusted_ensures": true,
-	"guarded_by": true, "requires_held": true, "holds_during": true, "lock_order": true, "unshared": true, "lock_alias": true,
+	"guarded_by": true, "requires_held": true, "holds_during": true, "lock_order": true, "unshared": true, "lock_alias": true, "assert_before": true,
 }
 
 type rawClause struct {
@@ -391,6 +398,17 @@ func loadContracts(dir, pkgPath string) (*PkgContracts, error) {
 				}
 			case "tparams":
 				cur.TParams = strings.TrimSpace(c.text)
+			case "assert_before":
+				// assert_before "<substring of the statement's source>" <expr>
+				t := strings.TrimSpace(c.text)
+				if !strings.HasPrefix(t, "\"") {
+					return nil, fmt.Errorf("%s:%d: assert_before \"anchor\" <expr>", path, c.line)
+				}
+				k := strings.Index(t[1:], "\"")
+				if k < 0 {
+					return nil, fmt.Errorf("%s:%d: assert_before: unterminated anchor", path, c.line)
+				}
+				cur.AssertsBefore = append(cur.AssertsBefore, &AssertBefore{Anchor: t[1 : 1+k], Clause: &Clause{Text: strings.TrimSpace(t[2+k:]), Line: c.line}})
 			case "atcall":
 				// atcall <CalleeName> <expr over caller variables and the callee's parameter names>
 				f := strings.SplitN(strings.TrimSpace(c.text), " ", 2)
@@ -660,6 +678,18 @@ func (pc *PkgContracts) genSpecFileX(imports []string, locals func(fs *FuncSpec,
 				if err := emit(fmt.Sprintf("__atcall_%s_%s_%d", base, n, i), fs.TParams, lv, "bool", c); err != nil {
 					return "", err
 				}
+			}
+		}
+		for i, ab := range fs.AssertsBefore {
+			var lv []Param
+			lv = append(lv, pre...)
+			if pc.assertVars != nil {
+				for _, l := range pc.assertVars(fs, ab) {
+					lv = append(lv, Param{l.Name, l.Type})
+				}
+			}
+			if err := emit(fmt.Sprintf("__assert_%s_%d", base, i), fs.TParams, lv, "bool", ab.Clause); err != nil {
+				return "", err
 			}
 		}
 		var loops []int
